@@ -35,7 +35,7 @@ Obs(p, g) ==
    index |-> IdxFun(p.index), bytes |-> p.bytes, cache |-> p.cache, height |-> p.height,
    inflight |-> [i \in DOMAIN p.inflight |->
                    [tx |-> p.inflight[i].tx, kind |-> p.inflight[i].kind,
-                    peer |-> p.inflight[i].peer, h |-> p.inflight[i].h]],
+                    peer |-> p.inflight[i].peer, h |-> p.inflight[i].h, gas |-> 0]],
    rcur |-> p.rcur, rend |-> p.rend, pre |-> p.pre, post |-> p.post,
    rcache |-> g.rcache, gone |-> g.gone, stale |-> g.stale, late |-> g.late]
 
